@@ -49,7 +49,7 @@ txt = {
  "D_none": "", "D_tok": "Bob", "D_toks": "Bob T. Builder", "D_q": "\"Bob\"", "D_qesc": "\"B \\\" , ; < > o\\\\\"", "D_qempty": "\"\"",
  "U_sip": "sip:bob@b.example", "U_sips": "sips:a@[::1]:5061", "U_tel": "tel:+1-408", "U_params": "sip:a@b;transport=tcp?h=v", "U_x": "x",
  "P_tag": "tag", "P_TAG": "TaG", "P_expires": "expires", "P_EXPIRES": "EXPIRES", "P_q": "q", "P_Q": "Q", "P_lr": "lr", "P_LR": "LR",
- "P_other": "foo", "P_tagx": "tagx", "P_ta": "ta",
+ "P_other": "foo", "P_received": "received", "P_instance": "+sip.instance", "P_x": "x", "P_xlifetime": "x-lifetime", "P_tagx": "tagx", "P_ta": "ta",
  "PV_tok": "abc", "PV_num": "3600", "PV_0": "0", "PV_big": "4294967296", "PV_q5": "0.5", "PV_q1": "1", "PV_q1000": "1.000", "PV_q05": ".05", "PV_q2": "2",
  "PV_quoted": "\"q v\tw\"", "PV_qesc": "\"a\\\"b;c,d\"",
  "U_inner": "sip:a@b;tag=in;lr;expires=5;q=0.1", "WSFH": "\r\n\t", "WSSF": " \r\n ",
